@@ -221,6 +221,9 @@ theorem decodeOpenssh_encodeOpenssh (c : Cipher) (pass : Option Cipher) (check :
     (henc : encodeOpenssh? c check k = some w) :
     decodeOpenssh pass w = .ok k := by
   unfold encodeOpenssh? at henc
+  split at henc
+  · simp at henc
+  unfold encodeOpensshPreFix? at henc
   cases h1 : plainSection? check k with
   | none => simp [h1] at henc
   | some plain =>
@@ -242,5 +245,25 @@ theorem decodeOpenssh_encodeOpenssh (c : Cipher) (pass : Option Cipher) (check :
     simp only [isPrefixOf_append, Bool.not_true, Bool.false_eq_true, if_false, List.drop_left, hbody, hn,
       ne_eq, not_true_eq_false, hpass hn, hkdf hn, hlaw]
     exact decodePlain_plainSection true check k plain p h1 hpok
+
+/-- the repaired exporter writes nothing for a comment it refuses -/
+theorem encodeOpenssh?_refused (c : Cipher) (check : Nat) (k : OpensshKey) (h : commentRefused k.comment = true) :
+    encodeOpenssh? c check k = none := by
+  simp [encodeOpenssh?, h]
+
+/-- whatever the repaired exporter writes was not refused -/
+theorem not_refused_of_encodeOpenssh? {c : Cipher} {check : Nat} {k : OpensshKey} {w : Bytes}
+    (h : encodeOpenssh? c check k = some w) : commentRefused k.comment = false := by
+  unfold encodeOpenssh? at h
+  split at h
+  · simp at h
+  · simpa using ‹¬ commentRefused k.comment = true›
+
+/-- a byte string without a NUL is a C string in OpenSSH's sense -/
+theorem cstringOk_of_no_nul (b : Bytes) (h : b.contains 0 = false) : cstringOk b = true := by
+  unfold cstringOk
+  have hn : (0 : UInt8) ∉ b := by simpa using h
+  have : (0 : UInt8) ∉ b.dropLast := fun hm => hn (List.dropLast_subset b hm)
+  simp [this]
 
 end AsyncsshModel.KeyFmt
